@@ -170,10 +170,15 @@ class TokString(Token):
                     b']' + self._multiline_quote + b']')
         else:
             escaped_chrs = []
-            for c in self._data:
+            for idx, c in enumerate(self._data):
                 c = bytes([c])
                 if c in _STRING_REVERSE_ESCAPES:
-                    escaped_chrs.append(b'\\' + _STRING_REVERSE_ESCAPES[c])
+                    esc = _STRING_REVERSE_ESCAPES[c]
+                    if esc.isdigit() and self._data[idx+1:idx+2].isdigit():
+                        # A numeric escape followed by a digit must use all
+                        # three digits, or the digit becomes part of it.
+                        esc = esc.rjust(3, b'0')
+                    escaped_chrs.append(b'\\' + esc)
                 elif c == self._quote:
                     escaped_chrs.append(b'\\' + c)
                 else:
